@@ -16,6 +16,10 @@ pub fn check(t: &Trace<'_>, out: &mut CaseOut) -> bool {
     let Some(conn) = cop.conn else { return false };
     // spinning anywhere in the history is a violation of "no operation loops without bound"
     for (ev, e) in w.events.iter().enumerate() {
+        if matches!(e, Ev::ClockSpin) {
+            let kind = t.op_at(ev).map(|o| t.log.ops[o].kind).unwrap_or("?");
+            out.violations.push(viol("C16", format!("C16/spin/clock-busy-wait/{}", kind), format!("{} read the clock more than 20000 times without yielding to the executor: it busy-waits on a deadline that lies in the past", kind)));
+        }
         if matches!(e, Ev::Watchdog) {
             let kind = t.op_at(ev).map(|o| t.log.ops[o].kind).unwrap_or("?");
             out.violations.push(viol("C16", format!("C16/spin/{}", kind), format!("{} exceeded the per-call budget of {} transport calls / {} bytes without returning", kind, w.budget_calls, w.budget_bytes)));
